@@ -275,6 +275,14 @@ def gen_C05(seed):
     if r.random() < 0.25:
         mid = round(s["t0"] + direction * L * r.uniform(0.2, 0.8), 6)
         ops = [{"op": "integrate", "t": mid}, {"op": "integrate"}]
+    rt_ = sub(seed, "tolset")
+    if s.get("rtol") is not None and rt_.random() < (0.5 if s["method"].startswith("Rich:") else 0.15):
+        # the tolerances in force are set through the rtol / atol properties AFTER construction (with the method installed): the system is
+        # built with loose ones and tightened - what counts are the tolerances the system reports when it integrates
+        tight_r, tight_a = s["rtol"], s["atol"]
+        s["rtol"] = float("%.2e" % min(1e-2, tight_r * 10 ** rt_.uniform(2.0, 4.0)))
+        s["atol"] = float("%.2e" % min(1e-2, tight_a * 10 ** rt_.uniform(2.0, 4.0)))
+        ops = [{"op": "set", "attr": "rtol", "value": tight_r}, {"op": "set", "attr": "atol", "value": tight_a}] + ops
     scn["ops"] = ops
     if r.random() < 0.5 and not long_decay:
         # fault-injecting configuration: transient spikes force rejections
@@ -282,7 +290,7 @@ def gen_C05(seed):
         stages = {"RK1412Solver": 35, "RK108Solver": 17, "RK8713MSolver": 13, "RK45CKSolver": 6, "HeunEulerSolver": 2, "DOPRI45": 7}.get(s["method"], 8)
         nf = rf.choice([1, 1, 1, 2, 3])
         persistent = rf.random() < 0.3
-        opi = rf.randrange(len(ops))
+        opi = rf.choice([i_ for i_, o_ in enumerate(ops) if o_["op"] == "integrate"])
         k0 = rf.randrange(1, 12 * stages)
         if persistent:
             scn["knobs"]["retry_cap"] = rf.choice([2, 3, 5])
@@ -457,9 +465,9 @@ def gen_C06(seed):
             cur = op["t"]
         if with_events and (r.random() < 0.8):
             pool = list(range(len(scn["events"])))
-            if j > 0:
-                # a terminal event that already stopped an earlier call fires again at the starting point of the next one (g = 0
-                # there, as in scipy): continuations only monitor the non-terminal events
+            if j > 0 and sub(seed, "cont%d" % j).random() < 0.5:
+                # half of the continuations monitor the non-terminal events only, the other half everything again (a terminal event
+                # that stopped the previous call must not stop the next one on the spot: D31)
                 pool = [e_ for e_ in pool if not scn["events"][e_]["terminal"]]
             if pool:
                 op["events"] = sorted(r.sample(pool, r.randint(1, len(pool))))
@@ -852,7 +860,14 @@ def gen_EV(seed, profile):
             op.pop("plan", None)
         # continuation after the stop
         cont = r.random()
-        if cont < 0.5:
+        rc_ = sub(seed, "cont_same")
+        if rc_.random() < 0.3:
+            # continuation that monitors the SAME events, the terminal one included: it starts on the crossing it stopped at and has to
+            # move on to the target or to a later terminal crossing; sometimes twice in a row
+            ops.append({"op": "integrate", "events": list(op["events"])})
+            if rc_.random() < 0.5:
+                ops.append({"op": "integrate", "events": list(op["events"])})
+        elif cont < 0.5:
             ops.append({"op": "integrate"})
         elif cont < 0.75:
             nonterm = [j for j, e in enumerate(evs) if not e["terminal"]]
@@ -866,9 +881,9 @@ def gen_EV(seed, profile):
         rf = sub(seed, "faults")
         if rf.random() < 0.25:
             scn["faults"].append({"op": 0, "seam": "rhs", "at": rf.randrange(1, 200), "kind": "raise"})
+            # the resume heads for the finite end of the span: if the fault does not fire, op 0 has already stopped at the terminal
+            # event and a resume towards infinity would have nothing left to stop it
             resume = {"op": "integrate", "events": list(op["events"])}
-            if op.get("t") is not None:
-                resume["t"] = op["t"]
             ops.insert(1, resume)
     if profile == "C08" and r.random() < 0.3:
         scn["knobs"]["alloc_cap"] = r.choice([1, 2, 3])
@@ -920,6 +935,10 @@ def gen_C04(seed):
             scn["knobs"]["newton_cap"] = rf.choice([1, 2, 4])
     scn["twin"] = r.choice(["shift", "shift", "reflect", "none"])
     scn["shift"] = r.choice([1, -1]) * 2.0 ** r.randint(-2, 7)
+    rs_ = sub(seed, "farshift")
+    if is_adaptive(s["method"]) and scn["problem"]["dtype"] != "float32" and rs_.random() < 0.4:
+        # time axis far away from the state's magnitude (|t| >> |y|): nothing in an autonomous computation may scale with |t|
+        scn["shift"] = rs_.choice([1, -1]) * 2.0 ** rs_.randint(9, 13)
     return scn
 
 
